@@ -53,13 +53,19 @@ def cmdSplit (s : Array Nat) : String :=
     "ok " ++ " ".intercalate (sts.map fun st => toString st.length) ++ " | " ++
       " ; ".intercalate (sts.map fun st => showText (pyStrip (stmtText st)))
 
-/-- `lexstable <hex text>`: for each statement of `lexSplit`, in order, whether the Lean predicate `LexStable` (SqlProofs/Resplit.lean:
-re-lexing the stripped text of the statement gives its tokens minus the whitespace-typed tokens at both ends) holds.
-Answer: `ok` followed by one ` 1` or ` 0` per statement (just `ok` if there is no statement), or `err <PyErr>`. -/
-def cmdLexStable (s : Array Nat) : String :=
+/-- `lexstable <hex text>`: for each statement of `lexSplit`, in order, whether the Lean hypothesis of `resplit_text_any`
+(SqlProofs/Resplit.lean) holds: `lexStableB st || lexStableCB st`, i.e. re-lexing the stripped text of the statement gives its tokens
+minus the whitespace-typed tokens at both ends (`LexStable`), or gives its tokens with the whitespace *characters* cut at both ends where
+only Whitespace-typed tokens vanish and only value-blind tokens are shortened (`LexStableC`).
+Answer: `ok` followed by one ` 1` or ` 0` per statement (just `ok` if there is no statement), or `err <PyErr>`.
+`lexstable2` answers with two digits per statement instead: ` ab` with a = `LexStable`, b = `LexStableC`. -/
+def cmdLexStable (both : Bool) (s : Array Nat) : String :=
   match lexSplit s with
   | .error e => "err " ++ e.name
-  | .ok sts => "ok" ++ String.join (sts.map fun st => if lexStableB st then " 1" else " 0")
+  | .ok sts =>
+    let d (b : Bool) : String := if b then "1" else "0"
+    "ok" ++ String.join (sts.map fun st =>
+      if both then " " ++ d (lexStableB st) ++ d (lexStableCB st) else " " ++ d (lexStableB st || lexStableCB st))
 
 /-- `csl <isCreate> <beginDepth> <inCase> <type.path> <hex value>` → `delta isCreate beginDepth inCase inDeclare` -/
 def cmdCsl (ws : List String) : String :=
@@ -128,6 +134,21 @@ def cmdLeadHyp (s : Array Nat) : String :=
         | [] => "-"
       s!"{if hyp then 1 else 0}:{pred}")
 
+-- >>> delimsafe command -----------------------------------------------------------------------
+/-- `delimsafe <hex text>`: for every statement of lexer ∘ splitter `<DelimSafe>:<delimShape of the model's grouped
+tree, or e on error>` (0/1 each) -/
+def cmdDelimSafe (s : Array Nat) : String :=
+  match lexSplit s with
+  | .error e => "err " ++ e.name
+  | .ok sts =>
+    "ok " ++ " ".intercalate (sts.map fun st =>
+      let safe := Sql.DelimSafe st
+      let shape := match Sql.group 200 (Sql.flatStatement st) with
+        | .ok ks => if Sql.delimShapeL kwNorm ks then "1" else "0"
+        | .error _ => "e"
+      s!"{if safe then 1 else 0}:{shape}")
+-- <<< delimsafe command -----------------------------------------------------------------------
+
 -- >>> bookkeeping (heap) command ---------------------------------------------------------------
 /-- `heap <leaf> … # <op> …`: leaf = comma-joined hex code points (`-` = empty); op = `self:Class:start:stop:includeEnd:extend`.
 Answers `ok <result> … | <object> …` with result = id of `grp` or the exception name, object = `id:parent:kids:Class:value`. -/
@@ -163,7 +184,8 @@ def handle (line : String) : String :=
   | "re" :: rest => cmdRe (parseText rest)
   | "lex" :: rest => cmdLex (parseText rest)
   | "split" :: rest => cmdSplit (parseText rest)
-  | "lexstable" :: rest => cmdLexStable (parseText rest)
+  | "lexstable" :: rest => cmdLexStable false (parseText rest)
+  | "lexstable2" :: rest => cmdLexStable true (parseText rest)
   | "csl" :: rest => cmdCsl rest
   | "quiet" :: rest => cmdQuiet (parseText rest)
   | "views" :: rest => cmdViews (parseText rest)
@@ -171,6 +193,7 @@ def handle (line : String) : String :=
   | "group" :: rest => cmdGroup rest
   | "heap" :: rest => cmdHeap rest
   | "leadhyp" :: rest => cmdLeadHyp (parseText rest)
+  | "delimsafe" :: rest => cmdDelimSafe (parseText rest)
   | "acc" :: rest => Sql.Driver.cmdAcc rest   -- accessors (SqlModel/AccDriver.lean), stream S-ACC
   -- >>> formatting-side commands (SqlModel/FilterDriver.lean)
   | "opt" :: rest => Sql.Driver.cmdOpt rest
